@@ -29,7 +29,7 @@ func init() {
 		Run:     run,
 		Rule: "cases: every string over all 256 byte values up to length 2 and over a 59-byte SEN alphabet up to length 3 (quick) / 4 (thorough), the reserved spellings (true/false/null and prefixes/case variants, number spellings, signs, comment markers, operators), " +
 			"each as top-level value, array element between two others, object key and object value; int64 boundaries and finite float64; generated trees; written by sen.String, sen.Bytes, sen.Write, sen.Writer.SEN/MustSEN/Write, pretty.SEN, pretty.WriteSEN " +
-			"under {Indent 0/2, Tab, Sort, HTMLUnsafe, WriteLimit small, pretty Width/MaxDepth/Align} and read back with sen.Parse and, every fourth text, through the pooled sen.ParseReader from a reader delivering 1, 3 or 7 bytes at a time (now and then right after a callback-mode call on the same pool). non-trivial: every case with a non-empty string or a container; distinct: enumerated strings by construction, trees by digest",
+			"under {Indent 0/2, Tab, Sort, HTMLUnsafe, WriteLimit small, pretty Width/MaxDepth/Align} and read back with sen.Parse and, every fourth text, through the pooled sen.ParseReader from a reader delivering 1, 3 or 7 bytes at a time (now and then right after a callback-mode call on the same pool). also table-like data whose columns hold cells of mixed kinds for the aligned pretty writer. non-trivial: every case with a non-empty string or a container; distinct: enumerated strings by construction, trees by digest",
 		Assumptions: []string{
 			"strings and keys with invalid UTF-8 come back with U+FFFD in place of each invalid byte (same rule as C04)",
 			"a number keeps its value when the parsed number denotes the same decimal value (an int64 may come back as an equal json.Number; float64 by ==)",
